@@ -126,6 +126,8 @@ structure Params (V : Type) where
   /-- does the stream writer handed to the merger follow the compaction's CURRENT output builder?
   (`compactFlusher.StreamWriter` caches the writer of the first builder; generated fact) -/
   rebind : Bool
+  /-- does `dataScanner.nextContainer` accept a zero-length series bucket? (generated fact) -/
+  tolerant : Bool
 
 /-- `compactFlusherStreamWriter.Commit` → `afterAdd`: after each committed entry the current output
 file is finished when `builder.Size() >= maxFileSize`; after the loop a non-empty builder is
@@ -142,16 +144,22 @@ inductive Outcome
   | skipped   -- PickL0Compaction returned nil
   | moved     -- trivial move
   | merged    -- merge compaction installed
-  | crashed   -- merge compaction did not complete (nil dereference in afterAdd), nothing installed
+  | crashed   -- merge compaction did not complete (Merge error / nil dereference in afterAdd), nothing installed
   deriving DecidableEq, Repr
+
+/-- the groups `doMerge` hands to `merger.Merge`: key and the blocks of that key in the order the
+merged iterator delivered them -/
+def mergeGroups (p : Params V) (inputs : List (File V)) : List (Nat × List (Block V)) :=
+  groupLoop (sortByKey (p.shuffle (inputs.flatMap (fun f => f.entries)))) true 0 []
 
 /-- the merged output entries of a merge compaction, in key order -/
 def mergedEntries (agg : FieldType → V → V → V) (p : Params V) (inputs : List (File V)) :
     List (Nat × Block V) :=
-  let stream := sortByKey (p.shuffle (inputs.flatMap (fun f => f.entries)))
-  (groupLoop stream true 0 []).map (fun g => (g.1, mergeBlocks agg g.2))
+  (mergeGroups p inputs).map (fun g => (g.1, mergeBlocks p.tolerant agg g.2))
 
-/-- `family.backgroundCompactionJob` / `compactJob.Run` -/
+/-- `family.backgroundCompactionJob` / `compactJob.Run`. The merge compaction does not complete
+(nothing is installed) when `merger.Merge` returns an error for some key (`mergeFails`) or when
+the output needs a second file and the stream writer stays bound to the first one. -/
 def compact (agg : FieldType → V → V → V) (p : Params V) (st : Family V) : Family V × Outcome :=
   if st.l0.length < p.threshold then (st, .skipped)
   else
@@ -161,7 +169,8 @@ def compact (agg : FieldType → V → V → V) (p : Params V) (st : Family V) :
       ({ l0 := [], l1 := st.l1 ++ st.l0 }, .moved)
     else
       let chunks := splitLoop p.size p.maxFileSize (mergedEntries agg p (st.l0 ++ up)) [] 0
-      if !p.rebind && chunks.length > 1 then (st, .crashed)
+      if (mergeGroups p (st.l0 ++ up)).any (fun g => mergeFails p.tolerant g.2)
+          || (!p.rebind && chunks.length > 1) then (st, .crashed)
       else ({ l0 := [], l1 := rest ++ chunks.filterMap mkFile }, .merged)
 
 /-! ### histories -/
